@@ -306,7 +306,7 @@ macro "eff_tac" : tactic => `(tactic|
   | exact Or.inr ⟨_, rfl, created_status _⟩
   | exact Or.inl rfl)
 
-theorem actGroup_eff (st : State) (r : Request) (g : String) : Eff (actGroup st r g) st := by
+theorem actGroup_eff (fx : Fixes) (st : State) (r : Request) (g : String) : Eff (actGroup fx st r g) st := by
   unfold actGroup; eff_tac
 theorem actUser_eff (st : State) (r : Request) (g : String) (w : Who) : Eff (actUser st r g w) st := by
   unfold actUser; eff_tac
@@ -325,7 +325,7 @@ theorem act_eff (fx : Fixes) (st : State) (r : Request) (a : Action) : Eff (act 
   case notFoundPage => exact done_eff _ _
   case stats => eff_tac
   case listGroups => eff_tac
-  case group g => exact actGroup_eff _ _ _
+  case group g => exact actGroup_eff _ _ _ _
   case listUsers g => eff_tac
   case user g w => exact actUser_eff _ _ _ _
   case password g w => exact actPassword_eff _ _ _ _
@@ -346,7 +346,7 @@ theorem handle_eff (fx : Fixes) (st : State) (r : Request) : Eff (handle fx st r
 
 /-- does a response body carry a password (cleartext or hash), a user entry or a key? -/
 def leaks : Body → Bool
-  | .desc d => !d.users.isEmpty || d.wildcard.isSome || !d.keys.isEmpty
+  | .desc d => !d.users.isEmpty || d.wildcard.isSome || !d.keys.isEmpty || !d.legacy.isEmpty
   | .user u => u.password != .absent
   | _ => false
 
@@ -398,8 +398,54 @@ macro "clean_tac" : tactic => `(tactic|
   | (unfold Clean; intro resp hr; simp only [Outcome.resp.injEq] at hr; subst hr; rfl)
   | (unfold Clean; intro resp hr; simp at hr))
 
-theorem actGroup_clean (st : State) (r : Request) (g : String) : Clean (actGroup st r g) := by
-  unfold actGroup; clean_tac
+/-- What `GetSanitisedDescription` clears — and what it does not: the obsolete arrays survive it. -/
+theorem sanitise_spec (d : Desc) :
+    d.sanitise.users = [] ∧ d.sanitise.wildcard = none ∧ d.sanitise.keys = [] ∧
+    d.sanitise.legacy = d.legacy ∧ d.sanitise.content = d.content ∧ d.sanitise.autoSub = d.autoSub :=
+  ⟨rfl, rfl, rfl, rfl, rfl, rfl⟩
+
+/-- **Secrets and the legacy format.**  Whatever obsolete `op`/`presenter`/`other` arrays, users,
+wildcard user and keys a definition file has, the description that went through
+`upgradeDescription` and then `GetSanitisedDescription` carries no user entry, password, hash or
+key: the upgrade empties the arrays (`upgrade_spec`), the sanitiser the rest (`sanitise_spec`). -/
+theorem sanitised_upgrade_clean (d : Desc) : leaks (.desc d.upgrade.sanitise) = false := rfl
+
+/-- Sanitising alone is not enough: without the upgrade (or with an upgrade that leaves entries in
+the arrays) a legacy entry, password included, would be served. -/
+theorem sanitise_without_upgrade_leaks :
+    ∃ d : Desc, leaks (.desc d.sanitise) = true :=
+  ⟨{ legacy := [{ role := "op", name := "usrDup", password := some (.plain "secret") }] }, rfl⟩
+
+/-- every description obtained through `GetDescription` has been upgraded -/
+theorem getDescription_upgraded (st : State) (g k : String) (f : GroupFile) (s : Bool)
+    (h : getDescription st g = some (k, f, s)) : ∃ d0, f.desc = Desc.upgrade d0 := by
+  obtain ⟨f0, _, hf⟩ := readDescription_lookup _ _ _ _ _ _ h
+  exact ⟨f0.desc, by rw [hf]⟩
+
+theorem actGroup_clean (fx : Fixes) (st : State) (r : Request) (g : String) : Clean (actGroup fx st r g) := by
+  unfold actGroup
+  split
+  · split
+    · exact done_clean _ _ rfl
+    · next k f s hd =>
+      obtain ⟨d0, hd0⟩ := getDescription_upgraded st g k f s hd
+      split
+      · exact done_clean _ _ rfl
+      · split
+        · exact done_clean _ _ rfl
+        · exact done_clean _ _ (sendJSON_clean _ _ _ (by rw [hd0]; exact sanitised_upgrade_clean d0))
+  · split
+    · exact done_clean _ _ rfl
+    · next k f s hd =>
+      obtain ⟨d0, hd0⟩ := getDescription_upgraded st g k f s hd
+      split
+      · exact done_clean _ _ rfl
+      · split
+        · exact done_clean _ _ rfl
+        · exact done_clean _ _ (sendJSON_clean _ _ _ (by rw [hd0]; exact sanitised_upgrade_clean d0))
+  · clean_tac
+  · clean_tac
+  · clean_tac
 theorem actUser_clean (st : State) (r : Request) (g : String) (w : Who) : Clean (actUser st r g w) := by
   unfold actUser
   split
@@ -433,7 +479,7 @@ theorem act_clean (fx : Fixes) (st : State) (r : Request) (a : Action) : Clean (
   case notFoundPage => exact done_clean _ _ rfl
   case stats => clean_tac
   case listGroups => clean_tac
-  case group g => exact actGroup_clean _ _ _
+  case group g => exact actGroup_clean _ _ _ _
   case listUsers g => clean_tac
   case user g w => exact actUser_clean _ _ _ _
   case password g w => exact actPassword_clean _ _ _ _
@@ -610,14 +656,22 @@ theorem C17_effect_only_if_acknowledged (fx : Fixes) (st st' : State) (r : Reque
 
 /-- **C17, secrets.**  No response body is built from a user entry, a password (cleartext or
 hash) or a key: a description is sent without users, wildcard user and keys, a user without
-password; every other body is a list of names, a token, statistics or a fixed text. -/
+password; every other body is a list of names, a token, statistics or a fixed text.  This includes
+definitions in the legacy file format (`sanitised_upgrade_clean`): `leaks` also looks into the
+obsolete `op`/`presenter`/`other` arrays, which `GetSanitisedDescription` does not clear. -/
 theorem C17_no_secrets (fx : Fixes) (st st' : State) (r : Request) (resp : Resp) (h : handle fx st r = (.resp resp, st')) :
     leaks resp.body = false := by
   have := handle_clean fx st r
   rw [h] at this
   exact this resp rfl
 
-/-! ### Preservation: what the update functions of group/description.go leave alone -/
+/-! ### Preservation: what the update functions of group/description.go leave alone
+
+"Stored" means: as the server reads the file, i.e. after `upgradeDescription` (`Desc.upgrade`,
+specified by `upgrade_spec` in Lemmas/ApiStore: the obsolete `op`/`presenter`/`other` arrays folded
+into users, first entry wins, the `users` map and the `wildcard-user` field win over all of them).
+Every rewritten file is in the modern format (`legacy = []`) — except that `UpdateDescription`
+copies the obsolete arrays of the REQUEST into the file (P25). -/
 
 /-- `UpdateDescription` refuses a description that carries users, a wildcard user or keys, and
 a successful one changes one file, in which users, wildcard user and keys are the stored ones. -/
@@ -628,8 +682,10 @@ theorem C17_preserve_description (st st' : State) (name : String) (etag : Option
     ∃ key f', lookup key st'.groups = some f' ∧
       (∀ k', k' ≠ key → lookup k' st'.groups = lookup k' st.groups) ∧
       f'.desc.content = d.content ∧ f'.desc.autoSub = d.autoSub ∧
+      f'.desc.legacy = d.legacy ∧ f'.desc.allowSubLegacy = false ∧
       (∀ f, lookup key st.groups = some f →
-        f'.desc.users = f.desc.users ∧ f'.desc.wildcard = f.desc.wildcard ∧ f'.desc.keys = f.desc.keys) := by
+        f'.desc.users = f.desc.upgrade.users ∧ f'.desc.wildcard = f.desc.upgrade.wildcard ∧
+        f'.desc.keys = f.desc.upgrade.keys) := by
   unfold updateDescription at h
   split at h
   · simp at h
@@ -645,7 +701,8 @@ theorem C17_preserve_description (st st' : State) (name : String) (etag : Option
         simp only [hold] at h
         have hst := rewrite_ok _ _ _ _ h
         subst hst
-        refine ⟨rfl, rfl, fileKey name, _, lookup_upsert_self _ _ _, fun k' hk => lookup_upsert_ne _ _ _ _ hk, rfl, rfl, ?_⟩
+        refine ⟨rfl, rfl, fileKey name, _, lookup_upsert_self _ _ _, fun k' hk => lookup_upsert_ne _ _ _ _ hk,
+          rfl, rfl, rfl, rfl, ?_⟩
         intro f hf
         rw [readDescription_none _ _ hn hold] at hf
         simp at hf
@@ -654,23 +711,40 @@ theorem C17_preserve_description (st st' : State) (name : String) (etag : Option
         simp only [hold] at h
         have hst := rewrite_ok _ _ _ _ h
         subst hst
-        refine ⟨rfl, rfl, k, _, lookup_upsert_self _ _ _, fun k' hk => lookup_upsert_ne _ _ _ _ hk, rfl, rfl, ?_⟩
+        refine ⟨rfl, rfl, k, _, lookup_upsert_self _ _ _, fun k' hk => lookup_upsert_ne _ _ _ _ hk,
+          rfl, rfl, rfl, rfl, ?_⟩
         intro f hf
-        rw [readDescription_lookup _ _ _ _ _ _ hold] at hf
-        simp at hf; subst hf
+        obtain ⟨f1, hl, hf1⟩ := readDescription_lookup _ _ _ _ _ _ hold
+        rw [hl] at hf
+        simp at hf; subst hf; subst hf1
         exact ⟨rfl, rfl, rfl⟩
+
+/-- A description update whose body carries no obsolete arrays (every accepted body once P25 is
+fixed) writes a file in the modern format, whose users and wildcard user — as the server will read
+them back — are exactly the stored ones. -/
+theorem C17_preserve_description_modern (st st' : State) (name : String) (etag : Option Nat) (d : DescIn)
+    (hn : name ≠ "") (hl : d.legacy = []) (h : updateDescription st name etag d = .ok st') :
+    ∃ key f', lookup key st'.groups = some f' ∧ f'.desc.upgrade = f'.desc ∧
+      (∀ f, lookup key st.groups = some f →
+        f'.desc.upgrade.users = f.desc.upgrade.users ∧ f'.desc.upgrade.wildcard = f.desc.upgrade.wildcard) := by
+  obtain ⟨_, _, _, _, _, key, f', h1, _, _, _, h5, h6, h7⟩ := C17_preserve_description st st' name etag d hn h
+  have hup : f'.desc.upgrade = f'.desc := upgrade_of_modern _ (h5.trans hl) h6
+  refine ⟨key, f', h1, hup, fun f hf => ?_⟩
+  rw [hup]
+  exact ⟨(h7 f hf).1, (h7 f hf).2.1⟩
 
 /-- `UpdateUser` refuses a user description carrying a password; a successful one keeps the
 stored password of that user and leaves every other user, the wildcard user (or the named users),
-the keys and the description alone. -/
+the keys and the description alone; the file it writes is in the modern format. -/
 theorem C17_preserve_user (st st' : State) (g : String) (w : Who) (etag : Option Nat) (u : User)
     (h : updateUser st g w etag u = .ok st') :
     u.password = .absent ∧
-    ∃ key f f', OneFile st st' key f f' ∧
-      f'.desc.content = f.desc.content ∧ f'.desc.autoSub = f.desc.autoSub ∧ f'.desc.keys = f.desc.keys ∧
-      (∀ w', w' ≠ w → f'.desc.getUser w' = f.desc.getUser w') ∧
+    ∃ key f f', OneFile st st' key f f' ∧ f'.desc.legacy = [] ∧
+      f'.desc.content = f.desc.upgrade.content ∧ f'.desc.autoSub = f.desc.upgrade.autoSub ∧
+      f'.desc.keys = f.desc.upgrade.keys ∧
+      (∀ w', w' ≠ w → f'.desc.getUser w' = f.desc.upgrade.getUser w') ∧
       ∃ nu, f'.desc.getUser w = some nu ∧ nu.perms = u.perms ∧
-        nu.password = ((f.desc.getUser w).map (·.password)).getD .absent := by
+        nu.password = ((f.desc.upgrade.getUser w).map (·.password)).getD .absent := by
   unfold updateUser at h
   split at h
   · simp at h
@@ -682,18 +756,23 @@ theorem C17_preserve_user (st st' : State) (g : String) (w : Who) (etag : Option
       simp only at h
       split at h
       · simp at h
-      · obtain ⟨f', hone, hd⟩ := rewrite_oneFile _ _ _ _ _ (readDescription_lookup _ _ _ _ _ _ hr) h
-        refine ⟨k, f, f', hone, ?_⟩
+      · obtain ⟨f0, hl, hf0⟩ := readDescription_lookup _ _ _ _ _ _ hr
+        subst hf0
+        obtain ⟨f', hone, hd⟩ := rewrite_oneFile _ _ _ _ _ hl h
+        refine ⟨k, f0, f', hone, ?_⟩
         rw [hd]
-        obtain ⟨r1, r2, r3⟩ := setUser_rest f.desc w { perms := u.perms, password := ((f.desc.getUser w).map (·.password)).getD .absent }
-        exact ⟨r1, r2, r3, fun w' hw => getUser_setUser_ne _ _ _ _ hw, _, getUser_setUser_self _ _ _, rfl, rfl⟩
+        obtain ⟨r1, r2, r3⟩ := setUser_rest f0.desc.upgrade w
+          { perms := u.perms, password := ((f0.desc.upgrade.getUser w).map (·.password)).getD .absent }
+        exact ⟨setUser_legacy _ _ _, r1, r2, r3, fun w' hw => getUser_setUser_ne _ _ _ _ hw, _,
+          getUser_setUser_self _ _ _, rfl, rfl⟩
 
 /-- `DeleteUser` removes exactly the addressed user. -/
 theorem C17_preserve_deleteUser (st st' : State) (g : String) (w : Who) (etag : Option Nat)
     (h : deleteUser st g w etag = .ok st') :
-    ∃ key f f', OneFile st st' key f f' ∧
-      f'.desc.content = f.desc.content ∧ f'.desc.autoSub = f.desc.autoSub ∧ f'.desc.keys = f.desc.keys ∧
-      (∀ w', w' ≠ w → f'.desc.getUser w' = f.desc.getUser w') ∧ f'.desc.getUser w = none := by
+    ∃ key f f', OneFile st st' key f f' ∧ f'.desc.legacy = [] ∧
+      f'.desc.content = f.desc.upgrade.content ∧ f'.desc.autoSub = f.desc.upgrade.autoSub ∧
+      f'.desc.keys = f.desc.upgrade.keys ∧
+      (∀ w', w' ≠ w → f'.desc.getUser w' = f.desc.upgrade.getUser w') ∧ f'.desc.getUser w = none := by
   unfold deleteUser at h
   split at h
   · simp at h
@@ -702,19 +781,22 @@ theorem C17_preserve_deleteUser (st st' : State) (g : String) (w : Who) (etag : 
     · simp at h
     · split at h
       · simp at h
-      · obtain ⟨f', hone, hd⟩ := rewrite_oneFile _ _ _ _ _ (readDescription_lookup _ _ _ _ _ _ hr) h
-        refine ⟨k, f, f', hone, ?_⟩
+      · obtain ⟨f0, hl, hf0⟩ := readDescription_lookup _ _ _ _ _ _ hr
+        subst hf0
+        obtain ⟨f', hone, hd⟩ := rewrite_oneFile _ _ _ _ _ hl h
+        refine ⟨k, f0, f', hone, ?_⟩
         rw [hd]
-        obtain ⟨r1, r2, r3⟩ := delUser_rest f.desc w
-        exact ⟨r1, r2, r3, fun w' hw => getUser_delUser_ne _ _ _ hw, getUser_delUser_self _ _⟩
+        obtain ⟨r1, r2, r3⟩ := delUser_rest f0.desc.upgrade w
+        exact ⟨delUser_legacy _ _, r1, r2, r3, fun w' hw => getUser_delUser_ne _ _ _ hw, getUser_delUser_self _ _⟩
 
 /-- `SetUserPassword` changes exactly the password of the addressed user. -/
 theorem C17_preserve_password (st st' : State) (g : String) (w : Who) (pw : Password)
     (h : setUserPassword st g w pw = .ok st') :
-    ∃ key f f', OneFile st st' key f f' ∧
-      f'.desc.content = f.desc.content ∧ f'.desc.autoSub = f.desc.autoSub ∧ f'.desc.keys = f.desc.keys ∧
-      (∀ w', w' ≠ w → f'.desc.getUser w' = f.desc.getUser w') ∧
-      ∃ ou, f.desc.getUser w = some ou ∧ f'.desc.getUser w = some { ou with password := pw } := by
+    ∃ key f f', OneFile st st' key f f' ∧ f'.desc.legacy = [] ∧
+      f'.desc.content = f.desc.upgrade.content ∧ f'.desc.autoSub = f.desc.upgrade.autoSub ∧
+      f'.desc.keys = f.desc.upgrade.keys ∧
+      (∀ w', w' ≠ w → f'.desc.getUser w' = f.desc.upgrade.getUser w') ∧
+      ∃ ou, f.desc.upgrade.getUser w = some ou ∧ f'.desc.getUser w = some { ou with password := pw } := by
   unfold setUserPassword at h
   split at h
   · simp at h
@@ -722,28 +804,34 @@ theorem C17_preserve_password (st st' : State) (g : String) (w : Who) (pw : Pass
     split at h
     · simp at h
     · next ou hu =>
-      obtain ⟨f', hone, hd⟩ := rewrite_oneFile _ _ _ _ _ (readDescription_lookup _ _ _ _ _ _ hr) h
-      refine ⟨k, f, f', hone, ?_⟩
+      obtain ⟨f0, hl, hf0⟩ := readDescription_lookup _ _ _ _ _ _ hr
+      subst hf0
+      obtain ⟨f', hone, hd⟩ := rewrite_oneFile _ _ _ _ _ hl h
+      refine ⟨k, f0, f', hone, ?_⟩
       rw [hd]
-      obtain ⟨r1, r2, r3⟩ := setUser_rest f.desc w { ou with password := pw }
-      exact ⟨r1, r2, r3, fun w' hw => getUser_setUser_ne _ _ _ _ hw, ou, hu, getUser_setUser_self _ _ _⟩
+      obtain ⟨r1, r2, r3⟩ := setUser_rest f0.desc.upgrade w { ou with password := pw }
+      exact ⟨setUser_legacy _ _ _, r1, r2, r3, fun w' hw => getUser_setUser_ne _ _ _ _ hw, ou, hu,
+        getUser_setUser_self _ _ _⟩
 
 /-- `SetKeys` changes exactly the keys. -/
 theorem C17_preserve_keys (st st' : State) (g : String) (keys : Option (List Key))
     (h : setKeys st g keys = .ok st') :
-    ∃ key f f', OneFile st st' key f f' ∧
-      f'.desc.content = f.desc.content ∧ f'.desc.autoSub = f.desc.autoSub ∧
-      f'.desc.users = f.desc.users ∧ f'.desc.wildcard = f.desc.wildcard ∧ f'.desc.keys = keys.getD [] := by
+    ∃ key f f', OneFile st st' key f f' ∧ f'.desc.legacy = [] ∧
+      f'.desc.content = f.desc.upgrade.content ∧ f'.desc.autoSub = f.desc.upgrade.autoSub ∧
+      f'.desc.users = f.desc.upgrade.users ∧ f'.desc.wildcard = f.desc.upgrade.wildcard ∧
+      f'.desc.keys = keys.getD [] := by
   unfold setKeys at h
   split at h
   · simp at h
   · split at h
     · simp at h
     · next k f s hr =>
-      obtain ⟨f', hone, hd⟩ := rewrite_oneFile _ _ _ _ _ (readDescription_lookup _ _ _ _ _ _ hr) h
-      refine ⟨k, f, f', hone, ?_⟩
+      obtain ⟨f0, hl, hf0⟩ := readDescription_lookup _ _ _ _ _ _ hr
+      subst hf0
+      obtain ⟨f', hone, hd⟩ := rewrite_oneFile _ _ _ _ _ hl h
+      refine ⟨k, f0, f', hone, ?_⟩
       rw [hd]
-      exact ⟨rfl, rfl, rfl, rfl, rfl⟩
+      exact ⟨rfl, rfl, rfl, rfl, rfl, rfl⟩
 
 /-- `DeleteDescription` removes one file and nothing else. -/
 theorem C17_preserve_deleteDescription (st st' : State) (name : String) (etag : Option Nat)
@@ -758,7 +846,6 @@ theorem C17_preserve_deleteDescription (st st' : State) (name : String) (etag : 
     · simp at h
     · simp at h; subst h
       exact ⟨rfl, rfl, k, lookup_erase_self _ _, fun k' hk => lookup_erase_ne _ _ _ hk⟩
-
 
 /-- the group-definition branch is never selected with the empty group name (the hypothesis
 `name ≠ ""` of `C17_preserve_description` holds for every request) -/
@@ -878,5 +965,46 @@ def putDesc : Request :=
 example : (handle {} exState putDesc).2.groups.map
       (fun p => (p.2.desc.users.length, p.2.desc.wildcard.isSome, p.2.desc.keys.length, p.2.desc.content, p.2.ver))
     = [(2, true, 1, 9, 4)] := by decide
+
+/-! #### the legacy file format -/
+
+def legacyDesc : Desc :=
+  { content := 4, users := [("usrMod", { password := .plain "lm", perms := .named "admin" })],
+    allowSubLegacy := true,
+    legacy := [ { role := "op", name := "usrOp", password := some (.plain "o") },
+                { role := "op", name := "usrDup", password := some (.hashed "b" "d1") },
+                { role := "op", name := "usrMod", password := some (.plain "lx") },
+                { role := "present", name := "usrDup", password := some (.plain "d2") },
+                { role := "present", name := "", password := some (.plain "w1") },
+                { role := "present", name := "usrPre", password := none },
+                { role := "message", name := "", password := some (.hashed "k" "w2") } ] }
+
+def legacyState : State :=
+  { exState with groups := [("grpL", { ver := 2, desc := legacyDesc })] }
+
+-- first wins, the users map wins, the second entry without username is dropped, no password = any password
+example : legacyDesc.upgrade.users =
+    [("usrDup", { password := .hashed "b" "d1", perms := .named "op" }),
+     ("usrMod", { password := .plain "lm", perms := .named "admin" }),
+     ("usrOp", { password := .plain "o", perms := .named "op" }),
+     ("usrPre", { password := .wildcard, perms := .named "present" })] := by decide
+example : legacyDesc.upgrade.wildcard = some { password := .plain "w1", perms := .named "present" } := by decide
+example : legacyDesc.upgrade.autoSub = true := by decide
+-- what is served for such a file
+example : (handle {} legacyState (get "/galene-api/v0/.groups/grpL" (.basic "root" "r"))).1 =
+    .resp { status := 200, etag := some 2, body := .desc { content := 4, autoSub := true } } := by decide
+example : (handle {} legacyState (get "/galene-api/v0/.groups/grpL/.users/usrDup" (.basic "usrMod" "lm"))).1 =
+    .resp { status := 200, etag := some 2, body := .user { perms := .named "op" } } := by decide
+-- the password of a dropped duplicate authenticates nobody
+example : (handle {} legacyState (get "/galene-api/v0/.groups/grpL" (.basic "usrMod" "lx"))).1 =
+    .resp { status := 401, body := .haha } := by decide
+-- the raw description, merely sanitised, would leak; upgraded first it does not
+example : leaks (.desc legacyDesc.sanitise) = true := by decide
+example : leaks (.desc legacyDesc.upgrade.sanitise) = false := by decide
+-- a user update rewrites the file in the modern format with the effective users
+def delDup : Request :=
+  { method := .DELETE, path := "/galene-api/v0/.groups/grpL/.users/usrDup", cred := .basic "root" "r" }
+example : (handle {} legacyState delDup).2.groups.map (fun p => (p.2.desc.legacy.length, p.2.desc.users.map (·.1), p.2.desc.wildcard.isSome))
+    = [(0, ["usrMod", "usrOp", "usrPre"], true)] := by decide
 
 end Galene.Props.C17
